@@ -40,7 +40,7 @@ mod verif_kani {
                 // (the reservation itself is checked on every path by the `with_capacity` stand-in)
                 assert!(t.targets.len() < len);
                 assert!(msg.len() + t.targets.len() + 2 <= len);
-                kani::cover!(t.targets.len() == 2);
+                kani::cover!(t.targets.len() == 1);
                 kani::cover!(t.targets.len() == 0 && msg.len() > 0);
                 core::mem::forget(t);
             }
